@@ -172,23 +172,33 @@ Definition run_hp (fs : list bytes) : bytes :=
     end.
 
 (* one script step: the token printed, the iterator afterwards; None = the implementation panicked *)
-Definition script_step (op : byte) (it : iter) : option (bytes * iter) :=
-  if beqb op "r"%byte then
-    match read_line it with Ok (r, it') => Some (show_res r, it') | _ => None end
-  else if beqb op "p"%byte then
-    match peek_line it with Ok (r, it') => Some (bs "p" ++ show_res r, it') | _ => None end
-  else if beqb op "x"%byte then Some (bs "x", iter_reset it)
-  else if beqb op "s"%byte then
-    Some (bs "st:" ++ match stopped_at it with Some l => show_line l | None => bs "none" end, it)
-  else if beqb op "e"%byte then Some (bs "e", set_fail_on_err it true)
-  else if beqb op "E"%byte then Some (bs "E", set_fail_on_err it false)
-  else Some (bs "?", it).
+Definition op_of_byte (c : byte) : option op :=
+  if beqb c "r"%byte then Some OpRead else if beqb c "p"%byte then Some OpPeek
+  else if beqb c "x"%byte then Some OpReset else if beqb c "s"%byte then Some OpStopped
+  else if beqb c "e"%byte then Some (OpFail true) else if beqb c "E"%byte then Some (OpFail false)
+  else None.
+
+Definition show_obs (o : op) (x : obs) : bytes :=
+  match o, x with
+  | OpPeek, ORes r => bs "p" ++ show_res r
+  | _, ORes r => show_res r
+  | _, OStop l => bs "st:" ++ match l with Some l => show_line l | None => bs "none" end
+  | OpReset, OUnit => bs "x"
+  | OpFail true, OUnit => bs "e"
+  | _, OUnit => bs "E"
+  end.
+
+Definition script_step (c : byte) (it : iter) : option (bytes * iter) :=
+  match op_of_byte c with
+  | None => Some (bs "?", it)
+  | Some o => match step o it with Ok (x, it') => Some (show_obs o x, it') | _ => None end
+  end.
 
 Fixpoint run_script (script : bytes) (it : iter) (acc : list bytes) : option (list bytes * iter) :=
   match script with
   | [] => Some (fast_rev acc, it)
-  | op :: script' =>
-      match script_step op it with
+  | c :: script' =>
+      match script_step c it with
       | Some (tok, it') => run_script script' it' (tok :: acc)
       | None => None
       end
